@@ -164,6 +164,15 @@ CLAIMS = {
         'note': 'Assumes getValues(fc, a, n) returns n values; binary overhead exact only without delimiter escaping. Two known findings (Modbus Plus predictions).',
         'technique': 'affine comparison of prediction functions with layout-summary lengths (static)',
     },
+    'C20': {
+        'text': 'Decides by constant/affine evaluation that the largest PDU the paging code can emit (fc + header layout length + largest '
+                'object total admitted by the budget test) is <= 253 and uses the whole PDU; that on every emitting path the budget is '
+                'charged, and the length byte carries, the length of the very payload that is emitted; the progress condition (largest '
+                'object that fits an empty page vs. 245); the continuation dataflow (next_object_id / more_follows / object count / header '
+                'packed after the objects / decode object loop); and the const-evaluated category id sets of the identity factory.',
+        'note': 'Completeness and exactly-once over whole continuation chains for all identities are not decided. One known finding (245-byte object never fits).',
+        'technique': 'constant/affine evaluation of the budget arithmetic + path-wise accounted-vs-emitted comparison + constant folding of id sets (static)',
+    },
 }
 
 _PENDING = 'check not built yet in this revision (planned, see DESIGN.md §2)'
